@@ -232,9 +232,8 @@ func genIndexCols(rng *rand.Rand, c *Coll) []string {
 		return []string{f1}
 	}
 	f2 := pick(rng, c.Fields).Name
-	// two STRING columns make index keys longer than the store accepts: queries through such an
-	// index never return (known finding [two-string-index], exercised by its own witness only)
-	if f2 == f1 || (c.field(f1).Type == tStr && c.field(f2).Type == tStr) {
+	// (two STRING columns give entry keys longer than the store accepts: CreateIndex must refuse them)
+	if f2 == f1 {
 		return []string{f1}
 	}
 	return []string{f1, f2}
